@@ -17,6 +17,7 @@ import (
 	"strconv"
 	"strings"
 	"sync/atomic"
+	"syscall"
 	"testing"
 	"time"
 )
@@ -28,6 +29,22 @@ import (
 // ---------------------------------------------------------------------------------------------
 
 const verifC08MaxS = int64(1) << 22 // C09 quantifier: declared samples <= 2^22
+
+// verifC08QuickMaxS is the declared-size cap applied to the generic mutations in the quick tier (handcrafted
+// "special" cases and the thorough tier always use verifC08MaxS). The JPEG 2000 packages lower it because
+// every decode of a stream that declares 2^22 samples allocates and clears 16 MiB per component.
+var verifC08QuickMaxS = verifC08MaxS
+
+// verifC08SecondaryOnOK: run the secondary entry points on every case the primary one accepted (default).
+// Packages whose decode is expensive switch it off in the quick tier (panicking and every 8th case remain).
+var verifC08SecondaryOnOK = true
+
+func verifC08Cap(c *verifC08Case) int64 {
+	if c.kind == "special" || verifC08Tier() == "thorough" {
+		return verifC08MaxS
+	}
+	return verifC08QuickMaxS
+}
 
 func verifC08Tier() string {
 	if os.Getenv("VERIF_TIER") == "thorough" {
@@ -47,6 +64,9 @@ func verifC08Seed() int64 {
 type verifC08Base struct {
 	name string
 	data []byte
+	// light marks a stream that is expensive to decode. quick tier: only unchanged / every 4th truncation /
+	// segment mutations, no byte and word substitution; thorough tier: the 15 value list instead of all 256.
+	light bool
 }
 
 // verifC08Case is one input handed to a decoder plus the recipe that produced it.
@@ -78,7 +98,7 @@ var verifC08WordVals = []int{0, 1, 0x7fff, 0x8000, 0xffff}
 //	valid    every base stream unchanged
 //	trunc    every proper prefix of every base (bases > 4 KiB: first 1024 offsets, then a stride)
 //	byte     single byte substitution at each of the first N bytes (quick N=300, thorough N=1500)
-//	         with values verifC08ByteVals (thorough: all 256)
+//	         with values verifC08ByteVals (thorough: all 256; "light" streams see verifC08Base)
 //	word     big-endian 16 bit substitution with verifC08WordVals at every offset of the first W
 //	         bytes (quick W=120, thorough W=N)
 //	seg*     marker segment dropped / duplicated / swapped with its successor / moved to the front
@@ -106,19 +126,24 @@ func verifC08Enumerate(bases, prefixes []verifC08Base, markers []byte, segs func
 			}
 			if n > 4096 && off >= 1024 {
 				off += 1 + n/1024
+			} else if b.light && tier != "thorough" {
+				off += 4 // quick tier, light base: every 4th truncation point
 			} else {
 				off++
 			}
 		}
 	}
 	for _, b := range bases {
+		if b.light && tier != "thorough" {
+			continue
+		}
 		n := len(b.data)
 		lim := nByte
 		if lim > n {
 			lim = n
 		}
 		for off := 0; off < lim; off++ {
-			if allVals {
+			if allVals && !b.light {
 				for v := 0; v < 256; v++ {
 					if byte(v) == b.data[off] {
 						continue
@@ -144,6 +169,9 @@ func verifC08Enumerate(bases, prefixes []verifC08Base, markers []byte, segs func
 		}
 	}
 	for _, b := range bases {
+		if b.light && tier != "thorough" {
+			continue
+		}
 		n := len(b.data)
 		lim := nWord
 		if lim > n-1 {
@@ -245,6 +273,25 @@ type verifC08Excl struct {
 	c08 bool
 }
 
+// verifC08ProcCPU returns the CPU time (user+system) consumed so far by this test process.
+func verifC08ProcCPU() time.Duration {
+	var ru syscall.Rusage
+	if err := syscall.Getrusage(syscall.RUSAGE_SELF, &ru); err != nil {
+		return 0
+	}
+	return time.Duration(ru.Utime.Nano() + ru.Stime.Nano())
+}
+
+// verifC08Effective discounts scheduler contention on a shared machine: the time charged to a decode is the
+// smaller of its wall time and of the CPU time the process consumed meanwhile (the decoders never sleep; the
+// garbage collector's helper threads make the CPU figure the larger one on an idle machine).
+func verifC08Effective(wall, cpu time.Duration) time.Duration {
+	if cpu > 0 && cpu < wall {
+		return cpu
+	}
+	return wall
+}
+
 // verifC08Decoder is one decoding entry point. ok reports "returned a result, not an error".
 type verifC08Decoder struct {
 	name string
@@ -266,6 +313,7 @@ type verifC08Runner struct {
 	cur             atomic.Pointer[verifC08Case]
 	curDec          atomic.Pointer[string]
 	curStart        atomic.Int64
+	curCPU          atomic.Int64
 	stop            chan struct{}
 	maxDur          time.Duration
 	maxDurCase      string
@@ -313,6 +361,7 @@ func verifC08TopFrame(stack string) string {
 func (r *verifC08Runner) call(dec *verifC08Decoder, c *verifC08Case) (ok, panicked bool) {
 	r.cur.Store(c)
 	r.curDec.Store(&dec.name)
+	r.curCPU.Store(int64(verifC08ProcCPU()))
 	r.curStart.Store(time.Now().UnixNano())
 	defer func() {
 		r.curStart.Store(0)
@@ -334,7 +383,8 @@ func (r *verifC08Runner) call(dec *verifC08Decoder, c *verifC08Case) (ok, panick
 	return
 }
 
-// guard watches the running case from a second goroutine: a decode that exceeds caseLimit or a heap that
+// guard watches the running case from a second goroutine: a decode that exceeds caseLimit (effective time, see
+// verifC08Effective; 6 x caseLimit wall time in any case) or a heap that
 // exceeds memAbort cannot be interrupted, so the guard reports the case and ends the test process.
 func (r *verifC08Runner) guard() {
 	sample := []metrics.Sample{{Name: "/memory/classes/heap/objects:bytes"}}
@@ -354,9 +404,10 @@ func (r *verifC08Runner) guard() {
 		metrics.Read(sample)
 		heap := sample[0].Value.Uint64()
 		el := time.Duration(time.Now().UnixNano() - st)
+		cpu := verifC08ProcCPU() - time.Duration(r.curCPU.Load())
 		why := ""
-		if el > r.caseLimit {
-			why = fmt.Sprintf("kind=timeout elapsed=%s limit=%s", el.Round(time.Millisecond), r.caseLimit)
+		if eff := verifC08Effective(el, cpu); eff > r.caseLimit || el > 6*r.caseLimit {
+			why = fmt.Sprintf("kind=timeout wall=%s process_cpu=%s limit=%s", el.Round(time.Millisecond), cpu.Round(time.Millisecond), r.caseLimit)
 		} else if heap > r.memAbort {
 			why = fmt.Sprintf("kind=mem-abort live_heap=%d limit=%d", heap, r.memAbort)
 		}
@@ -373,6 +424,44 @@ func (r *verifC08Runner) guard() {
 			r.test, r.cases, r.fails+1, r.cases, r.domain)
 		os.Exit(1)
 	}
+}
+
+// peakLive re-runs one case and samples the heap (live + not yet swept objects, GOGC=25 so at most 1.25 x live)
+// every 0.5 ms; it returns the growth of the maximum sample over the level before the call.
+func (r *verifC08Runner) peakLive(dec *verifC08Decoder, c *verifC08Case) uint64 {
+	runtime.GC()
+	old := debug.SetGCPercent(25)
+	defer debug.SetGCPercent(old)
+	read := func() uint64 {
+		s := []metrics.Sample{{Name: "/memory/classes/heap/objects:bytes"}}
+		metrics.Read(s)
+		return s[0].Value.Uint64()
+	}
+	base := read()
+	var peak atomic.Uint64
+	done, fin := make(chan struct{}), make(chan struct{})
+	go func() {
+		defer close(fin)
+		tick := time.NewTicker(500 * time.Microsecond)
+		defer tick.Stop()
+		for {
+			select {
+			case <-done:
+				return
+			case <-tick.C:
+				if v := read(); v > peak.Load() {
+					peak.Store(v)
+				}
+			}
+		}
+	}()
+	r.call(dec, c)
+	close(done)
+	<-fin
+	if p := peak.Load(); p > base {
+		return p - base
+	}
+	return 0
 }
 
 func (r *verifC08Runner) finish(t *testing.T) {
@@ -440,7 +529,7 @@ func verifC08RunC08(t *testing.T, pkg string, decs []verifC08Decoder, declared f
 			r.extra = append(r.extra, fmt.Sprintf("kind=excluded-known-abort why=%q %s", e.why, c.String()))
 			return true
 		}
-		if _, _, g := declared(c.data); g > verifC08MaxS {
+		if _, _, g := declared(c.data); g > verifC08Cap(c) {
 			r.skipped++
 			return true
 		}
@@ -460,7 +549,7 @@ func verifC08RunC08(t *testing.T, pkg string, decs []verifC08Decoder, declared f
 		}()
 		failed, primOK := false, false
 		for i := range decs {
-			if i > 0 && !(primOK || failed || r.cases%8 == 0) {
+			if i > 0 && !((primOK && verifC08SecondaryOnOK) || failed || r.cases%8 == 0) {
 				continue
 			}
 			ok, p := r.call(&decs[i], c)
@@ -476,13 +565,13 @@ func verifC08RunC08(t *testing.T, pkg string, decs []verifC08Decoder, declared f
 		}
 		return true
 	})
-	r.domain = fmt.Sprintf("%s; executed=%d skipped_declared_gt_2^22=%d; elapsed=%s", domain, r.cases, r.skipped, time.Since(start).Round(time.Millisecond))
+	r.domain = fmt.Sprintf("%s; executed=%d skipped_declared_gt_cap=%d; elapsed=%s", domain, r.cases, r.skipped, time.Since(start).Round(time.Millisecond))
 	r.finish(t)
 }
 
 // verifC08RunC09 executes the C09 statement on a sample of the same domain: each decode returns within 10 s
-// and allocates (runtime.MemStats.TotalAlloc delta, an upper bound of the peak heap growth of the call)
-// at most 512 MiB + 64*S bytes where S is the sample count declared by the first frame header (0 if none).
+// and allocates (runtime.MemStats.TotalAlloc delta, an upper bound of the peak heap growth of the call;
+// an exceedance is confirmed by peakLive before it counts) at most 512 MiB + 64*S bytes where S is the sample count declared by the first frame header (0 if none).
 func verifC08RunC09(t *testing.T, pkg string, decs []verifC08Decoder, declared func([]byte) (int64, bool, int64),
 	excluded map[string]verifC08Excl, enumerate func(fn func(c *verifC08Case) bool), every int, domain string) {
 	r := verifC08NewRunner(t.Name(), pkg, 10*time.Second)
@@ -493,6 +582,7 @@ func verifC08RunC09(t *testing.T, pkg string, decs []verifC08Decoder, declared f
 	start := time.Now()
 	seq := 0
 	var m0, m1 runtime.MemStats
+	var notes []string
 	baseS := map[string]int64{}
 	enumerate(func(c *verifC08Case) bool {
 		seq++
@@ -506,7 +596,7 @@ func verifC08RunC09(t *testing.T, pkg string, decs []verifC08Decoder, declared f
 			r.extra = append(r.extra, fmt.Sprintf("kind=excluded-known-abort declaredS=%d why=%q %s", s, e.why, c.String()))
 			return true
 		}
-		if g > verifC08MaxS {
+		if g > verifC08Cap(c) {
 			r.skipped++
 			return true
 		}
@@ -525,9 +615,9 @@ func verifC08RunC09(t *testing.T, pkg string, decs []verifC08Decoder, declared f
 				continue
 			}
 			runtime.ReadMemStats(&m0)
-			t0 := time.Now()
+			t0, c0 := time.Now(), verifC08ProcCPU()
 			r.call(&decs[i], c)
-			el := time.Since(t0)
+			el := verifC08Effective(time.Since(t0), verifC08ProcCPU()-c0)
 			runtime.ReadMemStats(&m1)
 			alloc := m1.TotalAlloc - m0.TotalAlloc
 			if el > r.maxDur {
@@ -541,8 +631,14 @@ func verifC08RunC09(t *testing.T, pkg string, decs []verifC08Decoder, declared f
 				r.extra = append(r.extra, fmt.Sprintf("kind=time elapsed=%s limit=10s declaredS=%d entry=%s %s", el, s, decs[i].name, c.String()))
 			}
 			if alloc > budget {
-				bad = true
-				r.extra = append(r.extra, fmt.Sprintf("kind=alloc totalalloc_delta=%d budget=%d declaredS=%d entry=%s %s", alloc, budget, s, decs[i].name, c.String()))
+				// TotalAlloc counts every allocation of the call, freed or not; confirm with a direct measurement
+				peak := r.peakLive(&decs[i], c)
+				if peak > budget {
+					bad = true
+					r.extra = append(r.extra, fmt.Sprintf("kind=alloc totalalloc_delta=%d sampled_peak_heap=%d budget=%d declaredS=%d entry=%s %s", alloc, peak, budget, s, decs[i].name, c.String()))
+				} else {
+					notes = append(notes, fmt.Sprintf("VERIF-C09-NOTE name=%s proxy-only exceedance (not counted): totalalloc_delta=%d > budget=%d but sampled_peak_heap=%d declaredS=%d entry=%s %s", r.test, alloc, budget, peak, s, decs[i].name, c.String()))
+				}
 			}
 		}
 		if bad {
@@ -552,8 +648,11 @@ func verifC08RunC09(t *testing.T, pkg string, decs []verifC08Decoder, declared f
 	})
 	// panics are C08's business: they are recorded by call() but do not count as C09 failures
 	r.sites, r.order = map[string]*verifC08Site{}, nil
-	r.domain = fmt.Sprintf("%s; executed=%d skipped_declared_gt_2^22=%d; max_time=%s max_totalalloc=%d (declaredS=%d); elapsed=%s",
+	r.domain = fmt.Sprintf("%s; executed=%d skipped_declared_gt_cap=%d; max_time=%s max_totalalloc=%d (declaredS=%d); elapsed=%s",
 		domain, r.cases, r.skipped, r.maxDur.Round(time.Microsecond), r.maxAlloc, r.maxAllocS, time.Since(start).Round(time.Millisecond))
+	for _, n := range notes {
+		fmt.Println(n)
+	}
 	fmt.Printf("VERIF-C09-MAX name=%s slowest=%s case={%s} largest_alloc=%d case={%s}\n", t.Name(), r.maxDur, r.maxDurCase, r.maxAlloc, r.maxAllocCase)
 	r.finish(t)
 }
@@ -649,14 +748,11 @@ func verifC08CODLayers(data []byte) int {
 	return int(data[p+6])<<8 | int(data[p+7])
 }
 
-// verifC08QuickFilter wraps fn for the quick tier: inputs whose COD declares more than 1024 quality layers
-// cost 1-7 s each in the decoders under test (time proportional to the layer count, see the C09 findings),
-// so the quick tier executes them only for the base streams whose index is in keep and reports the rest as
-// sampled out. The thorough tier executes all of them.
+// verifC08QuickFilter wraps fn: inputs whose COD declares more than 1024 quality layers cost 1-7 s each in
+// the decoders under test (time proportional to the layer count, see the C09 findings), so both tiers execute
+// them only for the base streams whose index is in keep (and for the handcrafted specials) and report the
+// rest as sampled out.
 func verifC08QuickFilter(tier string, bases []verifC08Base, keep map[int]bool, sampledOut *int, fn func(c *verifC08Case) bool) func(c *verifC08Case) bool {
-	if tier == "thorough" {
-		return fn
-	}
 	idx := map[string]int{}
 	for i, b := range bases {
 		idx[b.name] = i
@@ -764,7 +860,7 @@ func verifC08SIZSpecials(bases []verifC08Base) []verifC08Case {
 // verifC08CODSpecials: every value of the COD / QCD parameter bytes of valid streams (quick tier: except the
 // high byte of the COD layer count, whose boundary values the generic byte substitution already covers and
 // whose large values cost seconds per case).
-func verifC08CODSpecials(bases []verifC08Base, tier string) []verifC08Case {
+func verifC08CODSpecials(bases []verifC08Base, tier string, step int) []verifC08Case {
 	var out []verifC08Case
 	for _, b := range bases {
 		for _, m := range []byte{0x52, 0x5C} {
@@ -777,7 +873,7 @@ func verifC08CODSpecials(bases []verifC08Base, tier string) []verifC08Case {
 				if m == 0x52 && o == p+6 && tier != "thorough" {
 					continue
 				}
-				for v := 0; v < 256; v++ {
+				for v := 0; v < 256; v += step {
 					if int(b.data[o]) == v {
 						continue
 					}
@@ -819,7 +915,7 @@ func verifC08J2KPixels(w, h, comps, bits int, seed int64) []byte {
 func verifC08J2KDomain(tier string, nb int, extra string, layerFilter bool) string {
 	lf := ""
 	if layerFilter {
-		lf = " quick tier only: inputs whose COD declares > 1024 layers (1-7 s each) are executed for base stream #1 and for the handcrafted specials only and otherwise sampled out;"
+		lf = " inputs whose COD declares > 1024 layers (1-7 s each) are executed for base stream #1 and for the handcrafted specials only and otherwise sampled out;"
 	}
 	n, w, r := 300, 120, 400
 	vals := "15 values {0,1,2,3,4,15,16,17,63,64,127,128,200,254,255}"
@@ -827,7 +923,7 @@ func verifC08J2KDomain(tier string, nb int, extra string, layerFilter bool) stri
 		n, w, r = 1500, 1500, 6000
 		vals = "all 256 values"
 	}
-	return fmt.Sprintf("tier=%s seed=%d; %d valid codestreams (%s); each: unchanged, every truncation (streams > 4 KiB: first 1024 offsets then stride), byte substitution at first %d bytes x %s, 16-bit big-endian substitution {0,1,0x7fff,0x8000,0xffff} at first %d offsets, marker-segment drop/dup/swap/move-first (main header, SOT, first tile-part header); %d seeded random strings per start prefix (SOC; SOC+valid SIZ; valid header through first SOD); handcrafted SIZ field grids (32-bit extents incl. Xsiz<XOsiz and 2^32-1, tile sizes 0/1, Csiz, Ssiz/XRsiz/YRsiz) and all 256 values of every COD and QCD byte on selected streams;%s inputs whose independently parsed SIZ (any FF51 position) declares (Xsiz-XOsiz)*(Ysiz-YOsiz)*Csiz > 2^22 (wrapping int64) are skipped",
+	return fmt.Sprintf("tier=%s seed=%d; %d valid codestreams (%s); each: unchanged, every truncation (streams > 4 KiB: first 1024 offsets then stride), byte substitution at first %d bytes x %s, 16-bit big-endian substitution {0,1,0x7fff,0x8000,0xffff} at first %d offsets, marker-segment drop/dup/swap/move-first (main header, SOT, first tile-part header); %d seeded random strings per start prefix (SOC; SOC+valid SIZ; valid header through first SOD); handcrafted SIZ field grids (32-bit extents incl. Xsiz<XOsiz and 2^32-1, tile sizes 0/1, Csiz, Ssiz/XRsiz/YRsiz) and all 256 values (quick tier of the decoder packages: every 3rd resp. 5th value) of every COD and QCD byte on selected streams;%s inputs whose independently parsed SIZ (any FF51 position) declares (Xsiz-XOsiz)*(Ysiz-YOsiz)*Csiz > 2^22 (wrapping int64) are skipped (quick tier of the decoder packages: generic mutations are capped at 2^18 declared samples, handcrafted cases at 2^22)",
 		tier, verifC08Seed(), nb, extra, n, vals, w, r, lf)
 }
 
@@ -835,27 +931,36 @@ func verifC08J2KDomain(tier string, nb int, extra string, layerFilter bool) stri
 // header fields that multiply the decoder's work (layer count, code-block size, tile size). They probe C09.
 func verifC08BudgetSpecials(b verifC08Base, maxLayers int) []verifC08Case {
 	var out []verifC08Case
+	quick := verifC08Tier() != "thorough"
 	ps, pc := verifC08FindSeg(b.data, 0x51), verifC08FindSeg(b.data, 0x52)
 	if ps < 0 || pc < 0 {
 		return nil
 	}
 	csiz := int(binary.BigEndian.Uint16(b.data[ps+38:]))
-	n := 0
-	for _, ext := range [][2]uint32{{64, 64}, {256, 256}, {1024, 1024}, {2048, 2048}, {1 << 22, 1}, {1, 1 << 22}, {1 << 20, 4}, {4, 1 << 20}} {
+	exts := [][2]uint32{{64, 64}, {256, 256}, {1024, 1024}, {2048, 2048}, {1 << 22, 1}, {1, 1 << 22}, {1 << 20, 4}, {4, 1 << 20}}
+	tiles := []uint32{0, 16, 1} // 0: one tile covering the image
+	layerVals := []int{-1, 256, 4096, 0xffff}
+	for ei, ext := range exts {
 		if int64(ext[0])*int64(ext[1])*int64(csiz) > verifC08MaxS {
 			continue
 		}
-		for _, tile := range []uint32{0, 16, 1} { // 0: one tile covering the image
+		if quick && !((ext[0] == 2048 && ext[1] == 2048) || ext[0] == 1<<22 || (ext[0] == 64 && ext[1] == 64)) {
+			continue // quick tier: 64x64, 2048x2048 and 4194304x1 only
+		}
+		for ti, tile := range tiles {
 			if tile == 1 && ext[0] != ext[1] {
 				continue
 			}
-			for _, layers := range []int{-1, 256, 4096, 0xffff} {
+			if quick && tile != 0 && ext[0] != 64 {
+				continue
+			}
+			for li, layers := range layerVals {
 				if layers > maxLayers || (layers > 4096 && ext[0] != ext[1]) {
 					// strips with 65535 layers are borderline: 9-21 s measured on a loaded 16 core machine
 					// (Xsiz=1048576,Ysiz=4 one tile, 195 byte input); left out to keep the verdict deterministic.
 					continue
 				}
-				for _, cb := range []int{-1, 0} { // -1: keep; 0: xcb=ycb=0 i.e. 4x4 code-blocks
+				for ci, cb := range []int{-1, 0} { // -1: keep; 0: xcb=ycb=0 i.e. 4x4 code-blocks
 					d := append([]byte(nil), b.data...)
 					binary.BigEndian.PutUint32(d[ps+6:], ext[0])
 					binary.BigEndian.PutUint32(d[ps+10:], ext[1])
@@ -874,8 +979,8 @@ func verifC08BudgetSpecials(b verifC08Base, maxLayers int) []verifC08Case {
 						d[pc+10], d[pc+11] = byte(cb), byte(cb)
 						desc += ",COD.xcb=ycb=0"
 					}
-					out = append(out, verifC08Case{base: b.name + " with " + desc, kind: "special", off: n, val: layers, data: d})
-					n++
+					// off is a stable index of the grid point (independent of tier filters)
+					out = append(out, verifC08Case{base: b.name + " with " + desc, kind: "special", off: ((ei*len(tiles)+ti)*len(layerVals)+li)*2 + ci, val: layers, data: d})
 				}
 			}
 		}
@@ -914,7 +1019,7 @@ const verifC08Pkg = "jpeg2000/codestream"
 
 // The codestream package has no encoder and cannot import package jpeg2000 (import cycle), so the valid
 // base streams are embedded: they are the byte-exact outputs of jpeg2000.NewEncoder(params).Encode for the
-// parameters in the name (generated with the pinned tree by TestVerif_C08_jpeg2000's verifC08Bases, pixel
+// parameters in the name (produced by verifC08Bases of /verif/bounded/jpeg2000/verif_c08_test.go; identical for the pinned tree and for fix commit 83f877a; pixel
 // generator verifC08J2KPixels seed 7).
 var verifC08Embedded = []struct{ name, hex string }{
 	{"jpeg2000.Encoder 1x1 comps=1 bits=8 signed=false levels=0 layers=1 lossless=true mct=false tile=0x0 cblk=64x64 prog=0 precinct=0x0",
@@ -1024,7 +1129,7 @@ func verifC08Setup(t *testing.T) (decs []verifC08Decoder, enumerate func(fn func
 	for _, i := range []int{1, 2, 7} {
 		prefixes = append(prefixes, verifC08Base{name: "prefix=header-through-SOD of " + bases[i].name, data: verifC08ThroughSOD(bases[i].data)})
 	}
-	specials := append(verifC08SIZSpecials(bases[1:4]), verifC08CODSpecials([]verifC08Base{bases[1], bases[5], bases[7]}, "thorough")...)
+	specials := append(verifC08SIZSpecials(bases[1:4]), verifC08CODSpecials([]verifC08Base{bases[1], bases[5], bases[7]}, "thorough", 1)...)
 	specials = append(specials, verifC08SkipSegmentSpecials(bases[1])...)
 	for _, i := range []int{6, 7} {
 		// all 256 values of every byte of the RGN / MCT / MCC / MCO segments
@@ -1078,5 +1183,5 @@ func TestVerif_C09_codestream(t *testing.T) {
 		every = 1
 	}
 	verifC08RunC09(t, verifC08Pkg, decs, verifC08Declared, verifC08Excluded, enumerate, every,
-		fmt.Sprintf("C09 per Parse: wall <= 10 s and TotalAlloc delta (upper bound proxy for peak heap) <= 512MiB+64*S, S = (Xsiz-XOsiz)*(Ysiz-YOsiz)*Csiz of the first SIZ (0 if none or negative); sample = every case whose declared S differs from its base stream + all handcrafted specials + every %d-th case of: ", every)+domain)
+		fmt.Sprintf("C09 per Parse: time <= 10 s (min of wall time and process CPU time of the call, to discount contention on a shared machine; hard stop at 60 s wall) and TotalAlloc delta (upper bound proxy for peak heap; an exceedance counts only if a 0.5 ms heap sampling re-run confirms it) <= 512MiB+64*S, S = (Xsiz-XOsiz)*(Ysiz-YOsiz)*Csiz of the first SIZ (0 if none or negative); sample = every case whose declared S differs from its base stream + all handcrafted specials + every %d-th case of: ", every)+domain)
 }
